@@ -1,5 +1,9 @@
 ------------------------------- MODULE MCSpan -------------------------------
 EXTENDS Span
 MC_Store1 == <<1>>
+MC_Kind1 == <<"new">>
 MC_None == {}
+MC_IncAll == {"both", "trace", "span"}
+MC_IncBoth == {"both"}
+MC_IncPartial == {"trace", "span"}
 =============================================================================
